@@ -724,7 +724,7 @@ func (s *connScn) run(nSteps, maxCalls int, profile string) {
 					c.call = batchedUnsendableCall{c.call.(*hrpc.Get)}
 					s.hasPoison = true
 				}
-				closing := direct && !app && !unsendable && profile == "fail" && !s.closedBy && s.rng.Intn(9) == 0
+				closing := direct && !app && !unsendable && (profile == "fail" || profile == "close") && !s.closedBy && s.rng.Intn(9) == 0
 				if closing {
 					c.call = closingCall{c.call.(*hrpc.Get), s.rc}
 					s.closedBy = true
@@ -778,6 +778,9 @@ func (s *connScn) run(nSteps, maxCalls int, profile string) {
 		failW := 1
 		if profile == "fail" {
 			failW = 3
+		}
+		if profile == "close" {
+			failW = 0 // nothing fails by itself: the connection ends by Close only
 		}
 		for _, g := range pend {
 			g := g
@@ -872,6 +875,9 @@ func (s *connScn) run(nSteps, maxCalls int, profile string) {
 						if profile == "fail" {
 							kinds = append(kinds, "connErr", "badhdr")
 						}
+						if profile == "close" {
+							kinds = []string{"res", "res", "retryable", "nsre"}
+						}
 						k := kinds[s.rng.Intn(len(kinds))]
 						data, desc := s.buildFrame(w, k)
 						w.answered = true
@@ -901,7 +907,7 @@ func (s *connScn) run(nSteps, maxCalls int, profile string) {
 						s.log(fmt.Sprintf("rd:%d:%s", w.id, desc))
 					}})
 				}
-				if profile != "corr" && profile != "write" {
+				if profile != "corr" && profile != "write" && profile != "close" {
 					opts = append(opts, opt{failW, func() {
 						s.v.take(g)
 						if s.rng.Bool() {
@@ -928,7 +934,7 @@ func (s *connScn) run(nSteps, maxCalls int, profile string) {
 						s.log(fmt.Sprintf("rd:%d:res", id))
 					}})
 				}
-				if s.v.DeadlineSet() && profile != "corr" && profile != "write" {
+				if s.v.DeadlineSet() && profile != "corr" && profile != "write" && profile != "close" {
 					opts = append(opts, opt{2, func() {
 						s.v.take(g)
 						g.ch <- gateRes{err: vtimeout{}}
@@ -937,8 +943,8 @@ func (s *connScn) run(nSteps, maxCalls int, profile string) {
 				}
 			}
 		}
-		if !s.closedBy && profile == "fail" {
-			opts = append(opts, opt{1, func() {
+		if !s.closedBy && (profile == "fail" || profile == "close") {
+			opts = append(opts, opt{map[string]int{"fail": 1, "close": 3}[profile], func() {
 				s.closedBy = true
 				go s.rc.Close()
 				s.log("close")
